@@ -79,6 +79,14 @@ type exec struct {
 	held      []*heldLock
 	rpcPeer   value
 	orderSites map[string]bool
+
+	listeners   []*listener
+	dialed      map[*value]*dialedClient
+	serverSides map[*value]*value
+	ticks       int
+	retries     int
+	blobStrs    []blobStr
+	structPtrs  []structPtr
 	notes     []string
 	assumes   int
 	coros       []*coro
@@ -200,6 +208,7 @@ func (ex *exec) resetPath(prefix []int) {
 	ex.goPanic = nil
 	ex.schedNondet = false
 	ex.ptrIDs = nil
+	ex.structPtrs = nil
 	ex.lazyLog = nil
 	ex.lazyRoots = nil
 	ex.genUUIDs = nil
@@ -219,6 +228,7 @@ func (ex *exec) resetPath(prefix []int) {
 	ex.lastNow = nil
 	ex.rpcPeers = nil
 	ex.rpcCalls = 0
+	ex.resetNet()
 	ex.sleeps = 0
 	ex.solver.Reset()
 	ex.solver.SetEUFStrings(!ex.realStrings)
